@@ -159,6 +159,34 @@ Definition check_C20 (kind : string) (input output : J) : verdict :=
           end
     | _, _ => malformed
     end
+  else if String.eqb kind "pairc" then
+    (* same as "pair" for the ordered / unordered assertion: the element type only differs in its
+       Hash, which the model (and the property) do not depend on *)
+    match input, output with
+    | JL [JI aid; ja; jb], JB o =>
+        match jints ja, jints jb with
+        | Some a, Some b =>
+            let '(ag, p) := judge o (if aid =? 0 then m_ordered a b else m_unordered a b) in
+            ok_verdict ag p
+        | _, _ => malformed
+        end
+    | _, _ => malformed
+    end
+  else if String.eqb kind "long" then
+    (* in = [aid, n, diffs]: a[i] = i mod 5 ; b[i] = (a[i]+1) mod 5 at the listed positions *)
+    match input, output with
+    | JL [JI aid; JI n; jd], JB o =>
+        match jints jd with
+        | Some d =>
+            let idx := zrange n in
+            let a := map (fun i => i mod 5) idx in
+            let b := map (fun i => if existsb (Z.eqb i) d then (i mod 5 + 1) mod 5 else i mod 5) idx in
+            let '(ag, p) := judge o (if aid =? 0 then m_ordered a b else m_unordered a b) in
+            ok_verdict ag p
+        | None => malformed
+        end
+    | _, _ => malformed
+    end
   else if String.eqb kind "alias" then
     (* in = [aid, v, i, j]: the two arguments are v[..i] and v[..j] of one buffer *)
     match input, output with
